@@ -77,8 +77,8 @@ static vf::json gen_case(vf::Choice& ch, int size, const std::string& prop) {
 
 static std::optional<vf::Property>
 lookup(const std::string& id, const std::string& variant) {
-    static const std::set<std::string> served = {"C01", "C02", "C09", "C11",
-                                                 "C15"};
+    static const std::set<std::string> served = {"C01", "C02", "C03", "C09",
+                                                 "C11", "C15"};
     if (!served.count(id)) {
         return std::nullopt;
     }
